@@ -16,6 +16,7 @@ pub mod c13;
 pub mod c14;
 pub mod c15;
 pub mod c16;
+pub mod c17;
 pub mod c18;
 #[cfg(feature = "full")]
 pub mod c19;
@@ -42,6 +43,7 @@ pub fn dispatch(ctx: &Ctx, rep: &mut Report) -> bool {
         "C14" => c14::run(ctx, rep),
         "C15" => c15::run(ctx, rep),
         "C16" => c16::run(ctx, rep),
+        "C17" => c17::run(ctx, rep),
         "C18" => c18::run(ctx, rep),
         #[cfg(feature = "full")]
         "C19" => c19::run(ctx, rep),
